@@ -394,7 +394,7 @@ func TestVerif_C02(t *testing.T) {
 			return k + c02Key(p, g, w)
 		}}
 		c.RunDFS(h, c.Pick(3, 4))
-		c.RunBFS(h, c.Pick(5, 7), c.Pick(20000, 200000))
+		c.RunBFS(h, c.Pick(5, 7), c.Pick(60000, 300000))
 		c.ConfirmViolations(h)
 	}
 	c.AddValidated(c.Evaluations)
